@@ -82,24 +82,24 @@ def split_structure(ctx, rep, rule: str) -> None:
     repo = ctx.repo
     pts = ctx.engine("pts")
     fi = repo.func(f"{UTILS}:multi_dim_split")
-    body = [s for s in fi.node.body if not (isinstance(s, ast.Expr) and isinstance(s.value, ast.Constant))]
     rets = [n for n in A.walk_no_nested(fi.node) if isinstance(n, ast.Return)]
-    ok = len(rets) == 1 and len(body) == 1
-    detail = f"{len(rets)} return statement(s), {len(body)} top-level statement(s)"
-    if len(rets) >= 1:
-        r = rets[-1].value
-        red = isinstance(r, ast.Call) and A.callee_name(repo, fi.module, r) == "functools.reduce" and len(r.args) == 3
-        lam_ok = dom_ok = init_ok = False
-        if red:
-            lam, dom, init = r.args
-            dom_ok = _norm(dom) == f"range({fi.params[0]}.dim())"
-            init_ok = _norm(init) == f"({fi.params[0]},)"
-            if isinstance(lam, ast.Lambda) and len(lam.args.args) == 2:
-                acc, dim = lam.args.args[0].arg, lam.args.args[1].arg
-                sc = [c for c in ast.walk(lam.body) if isinstance(c, ast.Call) and A.callee_name(repo, fi.module, c) == "torch.split"]
-                lam_ok = len(sc) == 1 and _norm(sc[0].args[1]) == fi.params[1] and _norm(A.keyword(sc[0], "dim")) == dim and acc in _norm(lam.body)
-        ok = ok and red and lam_ok and dom_ok and init_ok
-        detail += f"; fold over every dimension `range(tensor.dim())`: {dom_ok}; starts from the whole tensor: {init_ok}; each step torch.split(piece, split_size, dim=<that dimension>): {lam_ok}"
+    fs = A.folds(repo, fi.module, fi.node)
+    ok = len(rets) == 1 and len(fs) == 1
+    detail = f"{len(rets)} return statement(s), {len(fs)} fold(s) (reduce or loop)"
+    if ok:
+        f = fs[0]
+        tensor, size = fi.params[0], fi.params[1]
+        dom_ok = _norm(f.iter) == f"range({tensor}.dim())"
+        init_ok = A.expanded(fi.node, f.init) == f"({tensor},)"
+        # the step re-splits every piece so far along that dimension: tuple(s for t in $acc for s in torch.split(t, size, dim=$0))
+        step = ast.parse(f.step.replace("$acc", "ACC__").replace("$0", "DIM__"), mode="eval").body
+        sc = [c for c in ast.walk(step) if isinstance(c, ast.Call) and A.callee_name(repo, fi.module, c) == "torch.split"]
+        gens = [g for n in ast.walk(step) if isinstance(n, (ast.GeneratorExp, ast.ListComp)) for g in n.generators]
+        lam_ok = len(sc) == 1 and len(sc[0].args) >= 2 and _norm(sc[0].args[1]) == size and _norm(A.keyword(sc[0], "dim")) == "DIM__" and any(_norm(g.iter) == "ACC__" and _norm(g.target) == _norm(sc[0].args[0]) for g in gens) and not any(g.ifs for g in gens)
+        # the fold's result is what is returned
+        res_ok = (f.form == "reduce" and rets[0].value is f.node) or (f.form == "loop" and isinstance(rets[0].value, ast.Name) and rets[0].value.id == f.result)
+        ok = dom_ok and init_ok and lam_ok and res_ok
+        detail += f"; fold over every dimension `range(tensor.dim())`: {dom_ok}; starts from the whole tensor: {init_ok}; each step torch.split(piece, split_size, dim=<that dimension>) of every piece: {lam_ok}; the fold's result is returned: {res_ok}"
     rep.ob(rule, "multi_dim_split:every-dimension-split", ok, fi.loc(), detail + " — an early exit or a shortened range leaves a dimension larger than max_preconditioner_dim for some tensor order", sample=True)
     ret = set()
     for fr in pts.frames_of(fi.qual):
